@@ -7,17 +7,13 @@ From Coq Require String.
 Import String.StringSyntax.
 Open Scope nat_scope.
 
-(* the exclusion for a run of fields: per field (type heads, default value) *)
-Fixpoint ok_fields (fs : list cfield) : bool :=
-  match fs with
-  | [] => true
-  | f :: fs' => ok_field f && ok_fields fs'
-  end.
+(* nothing is excluded any more: the former exclusions are kept as trivially true conditions *)
+Definition ok_fields (fs : list cfield) : bool := true.
 
 Definition fel : Type := (blank * cfield)%type.
 Definition pr_fel (e : fel) (r : list byte) : list byte := pr_blank (fst e) (pr_field (snd e) r).
 Definition felQ (e : fel) (r : list byte) : Prop :=
-  blank_ok (fst e) (pr_field (snd e) r) /\ (r <> [] -> ok_field (snd e) = true -> wf_field (snd e) = true) /\ noblank r /\
+  blank_ok (fst e) (pr_field (snd e) r) /\ (r <> [] -> hd_ascii r = true -> wf_field (snd e) = true) /\ noblank r /\
   dhead (pr_field (snd e) r) /\ (field_ends_word (snd e) = true -> hd_is is_digit r = false) /\
   (noblank (pr_fel e r) -> fst e = []).
 Definition fhdnil (es : list fel) : Prop := match es with [] => True | e :: _ => fst e = [] end.
@@ -34,10 +30,13 @@ Proof.
   destruct (pr_fel e (b :: l)); [cbn in *; lia|discriminate].
 Qed.
 
-Lemma chain_fields es k : k <> [] -> chain pr_fel felQ es k -> fhdnil es ->
+Lemma dhead_ascii x : dhead x -> hd_ascii x = true.
+Proof. intros [b0 [rest [-> Hb]]]. unfold hd_ascii. cbn [hd_sat]. now apply digit_ascii. Qed.
+
+Lemma chain_fields es k : k <> [] -> hd_ascii k = true -> chain pr_fel felQ es k -> fhdnil es ->
   prl pr_fel es k = pr_fields (map snd es) k /\ (ok_fields (map snd es) = true -> wf_fields (map snd es) = true).
 Proof.
-  intros Hk. induction es as [|[bl f] es IH]; cbn [chain prl fold_right map snd pr_fields fhdnil fst]; intros Hc Hh.
+  intros Hk Hak. induction es as [|[bl f] es IH]; cbn [chain prl fold_right map snd pr_fields fhdnil fst]; intros Hc Hh.
   - split; reflexivity.
   - subst bl. destruct Hc as [[_ [Hw [Hn [_ [Hnid _]]]]] Hc]. cbn [fst snd] in *. fold (prl pr_fel es k) in *.
     assert (Hh' : fhdnil es).
@@ -46,8 +45,10 @@ Proof.
     { destruct es as [|[bl' f'] es']; [contradiction|]. intros _. cbn [fhdnil fst] in Hh'. subst bl'. cbn [chain] in Hc.
       destruct Hc as [[_ [_ [_ [Hd0 _]]]] _]. cbn [prl fold_right]. unfold pr_fel at 1. cbn [fst snd pr_blank]. exact Hd0. }
     destruct (IH Hc Hh') as [E Wr]. pose proof (prl_fel_nonnil es k Hk) as Rn. unfold pr_fel at 1. cbn [fst snd pr_blank].
-    rewrite E in *. split; [reflexivity|]. cbn [ok_fields wf_fields]. intros Hok. bsplit Hok.
-    rewrite (Hw Rn ltac:(assumption)), (Wr ltac:(assumption)). rewrite andb_true_r. cbn [andb].
+    rewrite E in *. split; [reflexivity|]. cbn [wf_fields]. intros _.
+    assert (Ar : hd_ascii (pr_fields (map snd es) k) = true).
+    { destruct es as [|e' es']; [exact Hak|]. apply dhead_ascii. apply Hd'. discriminate. }
+    rewrite (Hw Rn Ar), (Wr eq_refl). rewrite andb_true_r. cbn [andb].
     destruct es as [|e' es']; [reflexivity|]. cbn [map is_nil orb].
     destruct (field_ends_word f) eqn:Ef; [|reflexivity]. exfalso.
     specialize (Hnid eq_refl). destruct (Hd' ltac:(discriminate)) as [d0 [rest [Ed0 Hd0]]].
@@ -73,18 +74,18 @@ Proof.
 Qed.
 
 (* a run of fields followed by the blank slot in front of the closing bracket *)
-Lemma frun_shape es i1 i2 o : chain pr_fel felQ es i1 -> opt (p_blank lf) i1 = POk i2 o -> i2 <> [] -> nb i2 = true ->
+Lemma frun_shape es i1 i2 o : chain pr_fel felQ es i1 -> opt (p_blank lf) i1 = POk i2 o -> i2 <> [] -> nb i2 = true -> hd_ascii i2 = true ->
   exists b0 fs, prl pr_fel es i1 = pr_blank b0 (pr_fields fs i2) /\ map (fun e : fel => erase_field (snd e)) es = map erase_field fs /\
                 wf_blank b0 = true /\ (ok_fields fs = true -> wf_fields fs = true) /\ (es <> [] -> fs <> []).
 Proof.
-  intros Hc E Hne Hnb. destruct (oblank_inv _ _ _ _ E) as [bc [Ei [Kc [_ Hnone]]]].
+  intros Hc E Hne Hnb Hai. destruct (oblank_inv _ _ _ _ E) as [bc [Ei [Kc [_ Hnone]]]].
   destruct es as [|[bl0 f0] es].
   - cbn [prl fold_right]. exists bc, []. cbn [pr_fields map]. repeat split; auto. apply (blank_ok_nonnil _ _ Kc Hne).
   - pose proof (chain_last_noblank _ _ Hc ltac:(discriminate)) as Hn. destruct (noblank_oblank _ _ _ _ Hn E) as [-> _].
     cbn [chain] in Hc. destruct Hc as [Hq Hc].
     assert (Hq0 : felQ ([], f0) (prl pr_fel es i1)).
     { unfold felQ in *. cbn [fst snd] in *. unfold pr_fel at 2. cbn [fst snd pr_blank]. repeat split; try tauto. left. reflexivity. }
-    destruct (chain_fields (([], f0) :: es) i1 Hne) as [E2 Wl]; [cbn [chain]; auto|reflexivity|].
+    destruct (chain_fields (([], f0) :: es) i1 Hne Hai) as [E2 Wl]; [cbn [chain]; auto|reflexivity|].
     cbn [prl fold_right] in E2. unfold pr_fel at 1 in E2. cbn [fst snd pr_blank] in E2.
     exists bl0, (f0 :: map snd es). cbn [prl fold_right]. unfold pr_fel at 1. cbn [fst snd map]. rewrite E2.
     cbn [map snd] in *. repeat split; auto; try discriminate.
@@ -92,19 +93,19 @@ Proof.
     + destruct Hq as [Kb [_ [_ [Hd _]]]]. cbn [fst snd] in *. apply (blank_ok_nonnil _ _ Kb). apply dhead_nonnil, Hd.
 Qed.
 
-Lemma frun0_inv i i1 i2 l o : many0 lf (fld lf df) i = POk i1 l -> opt (p_blank lf) i1 = POk i2 o -> i2 <> [] -> nb i2 = true ->
+Lemma frun0_inv i i1 i2 l o : many0 lf (fld lf df) i = POk i1 l -> opt (p_blank lf) i1 = POk i2 o -> i2 <> [] -> nb i2 = true -> hd_ascii i2 = true ->
   exists b0 fs, i = pr_blank b0 (pr_fields fs i2) /\ l = map erase_field fs /\ wf_blank b0 = true /\ (ok_fields fs = true -> wf_fields fs = true).
 Proof.
-  intros E1 E2 Hne Hnb.
+  intros E1 E2 Hne Hnb Hai.
   apply (many0_inv (fld lf df) (fun e : fel => erase_field (snd e)) pr_fel felQ fld_inv) in E1. destruct E1 as [es [-> [<- [Hc _]]]].
-  destruct (frun_shape es i1 i2 o Hc E2 Hne Hnb) as [b0 [fs [E [Em [Wb [Wf _]]]]]]. exists b0, fs. auto.
+  destruct (frun_shape es i1 i2 o Hc E2 Hne Hnb Hai) as [b0 [fs [E [Em [Wb [Wf _]]]]]]. exists b0, fs. auto.
 Qed.
 
-Lemma frun1_inv i i1 i2 l o : many1 lf (fld lf df) i = POk i1 l -> opt (p_blank lf) i1 = POk i2 o -> i2 <> [] -> nb i2 = true ->
+Lemma frun1_inv i i1 i2 l o : many1 lf (fld lf df) i = POk i1 l -> opt (p_blank lf) i1 = POk i2 o -> i2 <> [] -> nb i2 = true -> hd_ascii i2 = true ->
   exists b0 fs, i = pr_blank b0 (pr_fields fs i2) /\ l = map erase_field fs /\ wf_blank b0 = true /\ (ok_fields fs = true -> wf_fields fs = true) /\
                 fs <> [].
 Proof.
-  intros E1 E2 Hne Hnb.
+  intros E1 E2 Hne Hnb Hai.
   apply (many1_inv (fld lf df) (fun e : fel => erase_field (snd e)) pr_fel felQ fld_inv) in E1.
   destruct E1 as [c [cs [-> [<- [Hq [Hc _]]]]]].
   destruct (frun_shape (c :: cs) i1 i2 o) as [b0 [fs [E [Em [Wb [Wf Hn]]]]]]; [cbn [chain]; auto|assumption..|].
@@ -119,7 +120,7 @@ Proof.
   rewrite p_struct_like_eq. intros H. binv H. inversion H; subst.
   destruct (ident_inv _ _ _ E) as [-> [Hname _]]. destruct (oblank_inv _ _ _ _ E0) as [b1 [-> [K1 _]]].
   apply tag_inv in E1. destruct E1 as [-> _]. apply tag_inv in E4. destruct E4 as [-> _].
-  destruct (frun0_inv _ _ _ _ _ E2 E3 ltac:(discriminate) eq_refl) as [b0 [fs [-> [-> [W0 Wf]]]]].
+  destruct (frun0_inv _ _ _ _ _ E2 E3 ltac:(discriminate) eq_refl eq_refl) as [b0 [fs [-> [-> [W0 Wf]]]]].
   destruct (tail_inv _ _ _ _ _ _ _ _ E5 E6 E7) as [tl [-> [Ean [Wtl [Hop [Hsn _]]]]]].
   eexists (mkCStruct _ b1 b0 fs tl). unfold pr_struct_like, erase_struct, wf_struct. cbn [cs_name cs_b1 cs_b0 cs_fields cs_tail].
   change sym_struct_open with (txt "{"). change sym_struct_close with (txt "}"). rewrite Ean. split; [reflexivity|]. repeat split; auto.
@@ -255,16 +256,17 @@ Qed.
 
 (* ---------- functions ---------- *)
 Lemma args_inv i i1 i2 o o2 : opt (many1 lf (fld lf df)) i = POk i1 o -> opt (p_blank lf) i1 = POk i2 o2 -> i2 <> [] -> nb i2 = true ->
+  hd_ascii i2 = true ->
   exists b0 fs, i = pr_blank b0 (pr_fields fs i2) /\ unwrap_or_default o = map erase_field fs /\ wf_blank b0 = true /\
                 (ok_fields fs = true -> wf_fields fs = true).
 Proof.
-  intros E1 E2 Hne Hnb. apply opt_inv in E1. destruct E1 as [[l [-> E1]]|[-> [-> _]]].
-  - destruct (frun1_inv _ _ _ _ _ E1 E2 Hne Hnb) as [b0 [fs [-> [-> [W0 [Wf _]]]]]]. exists b0, fs. auto.
+  intros E1 E2 Hne Hnb Hai. apply opt_inv in E1. destruct E1 as [[l [-> E1]]|[-> [-> _]]].
+  - destruct (frun1_inv _ _ _ _ _ E1 E2 Hne Hnb Hai) as [b0 [fs [-> [-> [W0 [Wf _]]]]]]. exists b0, fs. auto.
   - destruct (oblank_inv _ _ _ _ E2) as [b0 [-> [K0 _]]]. exists b0, []. cbn [pr_fields map unwrap_or_default]. repeat split.
     apply (blank_ok_nonnil _ _ K0 Hne).
 Qed.
 
-Definition ok_throws (t : option cthrows) : bool := match t with Some t => ok_fields (th_fields t) | None => true end.
+Definition ok_throws (t : option cthrows) : bool := true.
 
 Lemma throws_group_inv i i1 i2 o o2 : opt (p_throws lf df) i = POk i1 o -> opt (p_blank lf) i1 = POk i2 o2 -> noblank i ->
   exists th : option cthrows, i = pr_throws th i2 /\
@@ -274,7 +276,7 @@ Proof.
   intros E1 E2 Hn. apply opt_inv in E1. destruct E1 as [[l [-> E1]]|[-> [-> _]]].
   - unfold p_throws in E1. binv E1. inversion E1; subst. apply tag_inv in E. destruct E as [-> _].
     destruct (oblank_inv _ _ _ _ E0) as [t1 [-> [K1 _]]]. apply tag_inv in E3. destruct E3 as [-> _]. apply tag_inv in E6. destruct E6 as [-> _].
-    destruct (frun1_inv _ _ _ _ _ E4 E5 ltac:(discriminate) eq_refl) as [t0 [fs [-> [-> [W0 [Wf Hne]]]]]].
+    destruct (frun1_inv _ _ _ _ _ E4 E5 ltac:(discriminate) eq_refl eq_refl) as [t0 [fs [-> [-> [W0 [Wf Hne]]]]]].
     destruct (oblank_inv _ _ _ _ E2) as [t2 [-> [K2 [N2 _]]]].
     exists (Some (mkCThrows t1 t0 fs t2)). cbn [pr_throws th_b1 th_b0 th_fields th_b2 unwrap_or_default ok_throws wf_throws].
     change kw_throws with (txt "throws"). change sym_throws_open with (txt "("). change sym_throws_close with (txt ")").
@@ -284,8 +286,7 @@ Proof.
   - destruct (noblank_oblank _ _ _ _ Hn E2) as [-> _]. exists None. repeat split; auto.
 Qed.
 
-Definition ok_function (f : cfunction) : bool :=
-  heads_ok_type (fn_type f) && ok_fields (fn_args f) && ok_throws (fn_cthrows f).
+Definition ok_function (f : cfunction) : bool := true.
 
 (* the keyword oneway was not read although the text begins with the word: no blank follows the word *)
 Lemma oneway_head_inv t R : wf_type t = true -> is_perr (p_oneway lf (pr_type t R)) -> ~ noblank R -> oneway_head_ok t = true.
@@ -321,7 +322,7 @@ Proof.
   destruct (type_inv _ _ _ _ _ E0) as [t [Et [<- [Wt [_ Ht]]]]]. destruct (blank_inv _ _ _ _ E1) as [b1 [-> [N1 [K1 _]]]].
   destruct (ident_inv _ _ _ E2) as [-> [Hname _]]. destruct (oblank_inv _ _ _ _ E3) as [b2 [-> [K2 _]]].
   apply tag_inv in E4. destruct E4 as [-> _]. apply tag_inv in E7. destruct E7 as [-> _].
-  destruct (args_inv _ _ _ _ _ E5 E6 ltac:(discriminate) eq_refl) as [b0 [args [-> [Eargs [W0 Wargs]]]]].
+  destruct (args_inv _ _ _ _ _ E5 E6 ltac:(discriminate) eq_refl eq_refl) as [b0 [args [-> [Eargs [W0 Wargs]]]]].
   destruct (oblank_inv _ _ _ _ E8) as [b3 [-> [K3 [N3 _]]]].
   destruct (throws_group_inv _ _ _ _ _ E9 E10 N3) as [th [-> [Eth [Wth [Nth Hthn]]]]].
   destruct (oanns_inv _ _ _ _ E11) as [an [-> [<- [Wa Han]]]]. destruct (osep_inv _ _ _ _ E12) as [sp [-> Hs]].
@@ -340,16 +341,17 @@ Proof.
   change sym_fn_open with (txt "(") in *. change sym_fn_close with (txt ")") in *.
   split; [unfold pr_function; cbn [fn_coneway fn_type fn_b1 fn_cname fn_b2 fn_b0 fn_args fn_b3 fn_cthrows fn_canns fn_sep]; destruct ow; reflexivity|].
   split; [rewrite Eoo, Eargs, Eth; f_equal; destruct an; reflexivity|]. split; [|split].
-  - intros Hr Hok. bsplit Hok.
+  - intros Hr _.
+    assert (WT : wf_type t = true) by (apply Wt; exact (blank_ne_ascii _ _ K1 N1)).
     assert (RS : pr_sep sp r <> []) by now apply pr_sep_nonnil.
     assert (RA : pr_oanns an (pr_sep sp r) <> []) by now apply pr_oanns_nonnil.
     assert (RT : pr_throws th (pr_oanns an (pr_sep sp r)) <> []) by now apply pr_throws_nonnil.
-    rewrite (Wt ltac:(assumption)), (blank_ok_nonnil _ _ K1) by (now apply nonnil_app_ident).
-    rewrite Hname, (blank_ok_nonnil _ _ K2) by discriminate. rewrite W0, (Wargs ltac:(assumption)), (blank_ok_nonnil _ _ K3 RT).
-    rewrite (Wth RA ltac:(assumption)), Wa, (wf_sep_of sp r Hs Hr).
+    rewrite WT, (blank_ok_nonnil _ _ K1) by (now apply nonnil_app_ident).
+    rewrite Hname, (blank_ok_nonnil _ _ K2) by discriminate. rewrite W0, (Wargs eq_refl), (blank_ok_nonnil _ _ K3 RT).
+    rewrite (Wth RA eq_refl), Wa, (wf_sep_of sp r Hs Hr).
     destruct b1; [contradiction|]. cbn [is_nil negb andb]. rewrite !andb_true_r.
     destruct ow as [bo|]; [destruct Wow as [-> Hne]; destruct bo; [contradiction|reflexivity]|].
-    apply (oneway_head_inv t _ (Wt ltac:(assumption)) Wow). intros Hnb. apply (noblank_blank lf) in Hnb. rewrite E1 in Hnb. exact Hnb.
+    apply (oneway_head_inv t _ WT Wow). intros Hnb. apply (noblank_blank lf) in Hnb. rewrite E1 in Hnb. exact Hnb.
   - intros Hc. destruct sp as [|semi bl]; cbn [sep_ok sep_none] in *; [|tauto].
     destruct an; [discriminate|]. cbn [pr_oanns pr_sep] in Nth. exact Nth.
   - unfold pr_function. cbn [fn_coneway fn_type fn_b1 fn_cname fn_b2 fn_b0 fn_args fn_b3 fn_cthrows fn_canns fn_sep].
@@ -497,21 +499,12 @@ Proof.
 Qed.
 
 (* ---------- items ---------- *)
-Definition ok_item (it : citem) : bool :=
-  match it with
-  | CITypedef t => heads_ok_type (ctd_type t)
-  | CIConst c => heads_ok_type (ck_type c) && cok_const (ck_val c)
-  | CIEnum e => ok_enumvals (ce_vals e)
-  | CIStruct _ _ s => ok_fields (cs_fields s)
-  | CIService s => forallb (fun e : fnel => ok_function (snd e)) (sv_fns s)
-  | _ => true
-  end.
 Definition is_const (it : citem) : bool := match it with CIConst _ => true | _ => false end.
 
 Definition ahead (x : list byte) : Prop := exists b0 rest, x = b0 :: rest /\ is_alpha b0 = true.
 
 Definition itemP (it : citem) (r : list byte) : Prop :=
-  (ok_item it = true -> wf_item (is_nil r) it = true) /\ (item_open it = true -> noblank r) /\
+  (hd_ascii r = true -> wf_item (is_nil r) it = true) /\ (item_open it = true -> noblank r) /\
   (item_ends_word it = true -> match it with CIConst c => cont_ok (ck_val c) r = true | _ => nid r = true end) /\ ahead (pr_item it r).
 
 Lemma tail_bare_pr t r : tail_bare t = true -> pr_tail t r = r.
@@ -543,7 +536,7 @@ Proof.
   destruct (bytes_eqb kw arm_include).
   { apply pmap_ok in H. destruct H as [l [H ->]].
     destruct (include_gen_inv (p_include lf) kw_include _ _ _ ltac:(reflexivity) H) as [b [cl [s [-> [<- [Wb [Nb [Wl [Ws Hn]]]]]]]]].
-    exists (CIInclude b cl s). unfold itemP. cbn [pr_item erase_item ok_item wf_item item_open item_ends_word is_const].
+    exists (CIInclude b cl s). unfold itemP. cbn [pr_item erase_item wf_item item_open item_ends_word is_const].
     change kw_include with (txt "include"). repeat split; auto; try discriminate.
     - intros _. rewrite Wb, Wl, Ws. destruct b; [contradiction|reflexivity].
     - intros Ho. apply Hn. now apply negb_true_iff in Ho.
@@ -551,55 +544,55 @@ Proof.
   destruct (bytes_eqb kw arm_cpp_include).
   { apply pmap_ok in H. destruct H as [l [H ->]].
     destruct (include_gen_inv (p_cpp_include lf) kw_cpp_include _ _ _ ltac:(reflexivity) H) as [b [cl [s [-> [<- [Wb [Nb [Wl [Ws Hn]]]]]]]]].
-    exists (CICppInclude b cl s). unfold itemP. cbn [pr_item erase_item ok_item wf_item item_open item_ends_word is_const].
+    exists (CICppInclude b cl s). unfold itemP. cbn [pr_item erase_item wf_item item_open item_ends_word is_const].
     change kw_cpp_include with (txt "cpp_include"). repeat split; auto; try discriminate.
     - intros _. rewrite Wb, Wl, Ws. destruct b; [contradiction|reflexivity].
     - intros Ho. apply Hn. now apply negb_true_iff in Ho.
     - apply ahead_txt; [reflexivity|discriminate]. }
   destruct (bytes_eqb kw arm_namespace).
   { apply pmap_ok in H. destruct H as [n [H ->]]. destruct (namespace_inv _ _ _ H) as [c [-> [<- [Wn [Nr Hnid]]]]].
-    exists (CINamespace c). unfold itemP. cbn [pr_item erase_item ok_item wf_item item_open item_ends_word is_const]. repeat split; auto.
+    exists (CINamespace c). unfold itemP. cbn [pr_item erase_item wf_item item_open item_ends_word is_const]. repeat split; auto.
     unfold pr_namespace. apply ahead_txt; [reflexivity|discriminate]. }
   destruct (bytes_eqb kw arm_typedef).
   { apply pmap_ok in H. destruct H as [n [H ->]]. destruct (typedef_inv _ _ _ _ _ H) as [c [-> [<- [Wn [Hop Hnid]]]]].
-    exists (CITypedef c). unfold itemP. cbn [pr_item erase_item ok_item wf_item item_open item_ends_word is_const]. repeat split; auto.
+    exists (CITypedef c). unfold itemP. cbn [pr_item erase_item wf_item item_open item_ends_word is_const]. repeat split; auto.
     unfold pr_typedef. apply ahead_txt; [reflexivity|discriminate]. }
   destruct (bytes_eqb kw arm_const).
   { apply pmap_ok in H. destruct H as [n [H ->]]. destruct (constant_inv _ _ _ _ _ H) as [c [-> [<- [Wn [Hop Cv]]]]].
-    exists (CIConst c). unfold itemP. cbn [pr_item erase_item ok_item wf_item item_open item_ends_word is_const]. repeat split; auto; try discriminate.
-    - intros Hok. apply andb_prop in Hok. destruct Hok. auto.
+    exists (CIConst c). unfold itemP. cbn [pr_item erase_item wf_item item_open item_ends_word is_const]. repeat split; auto; try discriminate.
     - unfold constant_ends_word. intros He. apply andb_prop in He. destruct He as [_ Hb]. now rewrite (tail_bare_pr _ r Hb) in Cv.
     - unfold pr_constant. apply ahead_txt; [reflexivity|discriminate]. }
   destruct (bytes_eqb kw arm_enum).
   { apply pmap_ok in H. destruct H as [n [H ->]]. destruct (enum_inv _ _ _ H) as [c [-> [<- [Wn Hop]]]].
-    exists (CIEnum c). unfold itemP. cbn [pr_item erase_item ok_item wf_item item_open item_ends_word is_const]. repeat split; auto; try discriminate.
+    exists (CIEnum c). unfold itemP. cbn [pr_item erase_item wf_item item_open item_ends_word is_const]. repeat split; auto; try discriminate.
     - intros Ho. apply Hop. destruct (ce_anns c); [discriminate|reflexivity].
     - unfold pr_enum. apply ahead_txt; [reflexivity|discriminate]. }
   destruct (bytes_eqb kw arm_struct).
   { apply pmap_ok in H. destruct H as [n [H ->]].
     destruct (struct_kw_inv (p_struct lf df) kw_struct _ _ _ ltac:(reflexivity) H) as [b [c [-> [<- [Wb [Nb [Wn Hop]]]]]]].
-    exists (CIStruct SKStruct b c). unfold itemP. cbn [pr_item erase_item ok_item wf_item item_open item_ends_word is_const skind_kw].
+    exists (CIStruct SKStruct b c). unfold itemP. cbn [pr_item erase_item wf_item item_open item_ends_word is_const skind_kw].
     change kw_struct with (txt "struct"). repeat split; auto; try discriminate.
-    - intros Hok. rewrite Wb, (Wn Hok). destruct b; [contradiction|reflexivity].
+    - intros _. rewrite Wb, (Wn eq_refl). destruct b; [contradiction|reflexivity].
     - apply ahead_txt; [reflexivity|discriminate]. }
   destruct (bytes_eqb kw arm_union).
   { apply pmap_ok in H. destruct H as [n [H ->]].
     destruct (struct_kw_inv (p_union lf df) kw_union _ _ _ ltac:(reflexivity) H) as [b [c [-> [<- [Wb [Nb [Wn Hop]]]]]]].
-    exists (CIStruct SKUnion b c). unfold itemP. cbn [pr_item erase_item ok_item wf_item item_open item_ends_word is_const skind_kw].
+    exists (CIStruct SKUnion b c). unfold itemP. cbn [pr_item erase_item wf_item item_open item_ends_word is_const skind_kw].
     change kw_union with (txt "union"). repeat split; auto; try discriminate.
-    - intros Hok. rewrite Wb, (Wn Hok). destruct b; [contradiction|reflexivity].
+    - intros _. rewrite Wb, (Wn eq_refl). destruct b; [contradiction|reflexivity].
     - apply ahead_txt; [reflexivity|discriminate]. }
   destruct (bytes_eqb kw arm_exception).
   { apply pmap_ok in H. destruct H as [n [H ->]].
     destruct (struct_kw_inv (p_exception lf df) kw_exception _ _ _ ltac:(reflexivity) H) as [b [c [-> [<- [Wb [Nb [Wn Hop]]]]]]].
-    exists (CIStruct SKException b c). unfold itemP. cbn [pr_item erase_item ok_item wf_item item_open item_ends_word is_const skind_kw].
+    exists (CIStruct SKException b c). unfold itemP. cbn [pr_item erase_item wf_item item_open item_ends_word is_const skind_kw].
     change kw_exception with (txt "exception"). repeat split; auto; try discriminate.
-    - intros Hok. rewrite Wb, (Wn Hok). destruct b; [contradiction|reflexivity].
+    - intros _. rewrite Wb, (Wn eq_refl). destruct b; [contradiction|reflexivity].
     - apply ahead_txt; [reflexivity|discriminate]. }
   destruct (bytes_eqb kw arm_service); [|discriminate].
   apply pmap_ok in H. destruct H as [n [H ->]]. destruct (service_inv _ _ _ H) as [c [-> [<- [Wn Hop]]]].
-  exists (CIService c). unfold itemP. cbn [pr_item erase_item ok_item wf_item item_open item_ends_word is_const]. repeat split; auto; try discriminate.
-  unfold pr_service. apply ahead_txt; [reflexivity|discriminate].
+  exists (CIService c). unfold itemP. cbn [pr_item erase_item wf_item item_open item_ends_word is_const]. repeat split; auto; try discriminate.
+  - intros _. apply Wn. clear. induction (sv_fns c) as [|e l IH]; [reflexivity|exact IH].
+  - unfold pr_service. apply ahead_txt; [reflexivity|discriminate].
 Qed.
 
 End Items.
